@@ -281,7 +281,7 @@ func (g *Gen) applyCall(ci *callInfo, st *State, r string, pos token.Pos, argOve
 					hn := g.fresh("Hr_" + k)
 					g.declare(hn, g.u.heapSort(k))
 					st.H[k] = hn
-					cond := "(not (= (l_obj l) (l_obj " + v.Addr + ")))"
+					cond := "(not " + g.rootChanged(v.Addr, v.GoT, k, "l") + ")"
 					g.assume("(forall ((l Loc)) (! (=> " + cond + " (= (select " + hn + " l) (select " + hold + " l))) :pattern ((select " + hn + " l))))")
 					g.frames = append(g.frames, havocFrame{kind: k, hn: hn, hpre: hold, conds: cond})
 				})
@@ -606,6 +606,46 @@ func (g *Gen) appendBuiltin(v ssa.Value, cc *ssa.CallCommon, st *State, r string
 	g.assume("(validslice " + res.T + ")")
 }
 
+// rootChanged: the location loc may be changed by a "modifies elems(x)" whose array is at addr and whose
+// elements have type el: it lies in that array object AND it is a cell of kind k of some element, i.e. its
+// path is <field path of an element cell of kind k>(pelm ...). Field ids are unique per struct type, so a field
+// of any other type that happens to live in the same object (in the untyped memory model) is not affected.
+func (g *Gen) rootChanged(addr string, el types.Type, k string, loc string) string {
+	same := "(= (l_obj " + loc + ") (l_obj " + addr + "))"
+	if el == nil {
+		return same
+	}
+	if g.rootTypes == nil {
+		g.rootTypes = map[string]types.Type{}
+	}
+	g.rootTypes[addr] = el
+	var alts []string
+	ok := true
+	func() {
+		defer func() {
+			if recover() != nil {
+				ok = false
+			}
+		}()
+		g.flatCellsT(el, func(path func(base string) string, ck string, ct types.Type) {
+			if ck != k {
+				return
+			}
+			pr := elemPathOf(path)
+			c := "((_ is pelm) (" + pr + " (l_path " + loc + ")))"
+			if m := lastFldID.FindStringSubmatch(path("@")); m != nil && pr != "pathid" {
+				c = "(and ((_ is pfld) (l_path " + loc + ")) (= (p_f (l_path " + loc + ")) " + m[1] + ") " + c + ")"
+			}
+			alts = append(alts, c)
+		})
+	}()
+	if !ok || len(alts) == 0 {
+		return same
+	}
+	sort.Strings(alts)
+	return "(and " + same + " " + orTerms(alts) + ")"
+}
+
 // flatCellsT enumerates the scalar cells of a type; path maps a base location to the cell location.
 func (g *Gen) flatCellsT(t types.Type, f func(path func(base string) string, kind string, ct types.Type)) {
 	var rec func(t types.Type, path func(string) string)
@@ -855,7 +895,8 @@ func (g *Gen) sortSlice(cc *ssa.CallCommon, st *State, r string) bool {
 		hn := g.fresh("Hsort_" + k)
 		g.declare(hn, g.u.heapSort(k))
 		st.H[k] = hn
-		outside := "(not (= (l_obj l) (l_obj (s_arr " + sv + "))))"
+		// sorting permutes element cells only: any other cell, also one living in the same object, is unchanged
+		outside := "(not " + g.rootChanged("(s_arr "+sv+")", slt.Elem(), k, "l") + ")"
 		g.assume("(forall ((l Loc)) (! (=> " + outside + " (= (select " + hn + " l) (select " + hold + " l))) :pattern ((select " + hn + " l))))")
 		g.frames = append(g.frames, havocFrame{kind: k, hn: hn, hpre: hold, conds: outside})
 		for _, path := range byKind[k] {
